@@ -178,6 +178,102 @@ LawSymmetric(x, y)     == ExpectedEq(x, y) = ExpectedEq(y, x)
 LawTransitive(x, y, z) == ExpectedEq(x, y) /\ ExpectedEq(y, z) => ExpectedEq(x, z)
 LawHash(x, y)          == ExpectedEq(x, y) <=> HashKey(x) = HashKey(y)
 
+(* ============================ history dimension: public in-place mutators ============================ *)
+(* "Equality follows the CURRENT attribute values": an object that was built at valuation A, compared and    *)
+(* hashed (warm) or not (cold), and then changed in place through the public API so that it now has the      *)
+(* values of B, must be == to a freshly built object with the values of B, hash like it, and be != to a      *)
+(* fresh object with the old values.  Three kinds of mutators:                                               *)
+(*   "set"   an attribute setter (plain attribute assignment for dataclass states) or, for container content, *)
+(*           the public add_* / remove_* methods: one group changes from token a to token b                   *)
+(*   "move"  translate_rotate with a lattice motion (integer translation, quarter turn): the valuation stays, *)
+(*           the spatial groups Moved(c) are displaced - the descriptor gets the motion mark "m1"             *)
+(*   "flat"  convert_to_2d: the object was built from 3-d points (mark "z3") and is flattened to "id"         *)
+(* An object descriptor is [val |-> valuation, mot |-> motion mark]; gamma builds it from RAW values to which  *)
+(* the harness applies the motion itself (never through the library's translate_rotate).                       *)
+Motions == {"id", "m1", "z3"}
+
+(* groups without a working public setter (read-only, or the setter warns "immutable" and ignores the value),  *)
+(* and groups whose joint constraint cannot be kept by a setter                                                 *)
+NoSetter == {
+  <<"ShapeGroup", "shapes">>, <<"Trajectory", "state_list">>, <<"SetBasedPrediction", "initial_time_step">>,
+  <<"StaticObstacle", "obstacle_id">>, <<"StaticObstacle", "obstacle_type">>, <<"StaticObstacle", "obstacle_shape">>,
+  <<"DynamicObstacle", "obstacle_id">>, <<"DynamicObstacle", "obstacle_type">>, <<"DynamicObstacle", "obstacle_shape">>,
+  <<"EnvironmentObstacle", "obstacle_id">>, <<"EnvironmentObstacle", "obstacle_type">>,
+  <<"EnvironmentObstacle", "obstacle_shape">>,
+  <<"GoalRegion", "lanelets_of_goal_position">>, <<"PlanningProblem", "planning_problem_id">>,
+  <<"Scenario", "lanelet_network">> }
+
+(* container content: changed by add_* ("d" -> v) and remove_* (v -> "d") instead of a setter *)
+Content == {<<"LaneletNetwork", g>> : g \in {"lanelets", "traffic_signs", "traffic_lights", "intersections", "areas"}}
+           \cup {<<"Scenario", "obstacles">>}
+
+(* explicit transition tables where not every (a, b) is reachable by one mutator call *)
+SpecialPairs == [
+  \* cycle setter keeps `active`; `active` setter keeps the cycle; nothing leads out of / into "no cycle"
+  TrafficLight_traffic_light_cycle |-> {<<"v1", "v2">>, <<"v2", "v1">>, <<"v1", "v3">>, <<"v3", "v1">>},
+  \* add_planning_problem only adds: {} -> {1} -> {1, 2}
+  PlanningProblemSet_planning_problem_list |-> {<<"d", "v3">>, <<"v3", "v1">>} ]
+
+SetPairs(c, g) ==
+  LET k == c \o "_" \o g
+  IN  IF <<c, g>> \in NoSetter THEN {}
+      ELSE IF k \in DOMAIN SpecialPairs THEN SpecialPairs[k]
+      ELSE IF <<c, g>> \in Content
+           THEN {<<a, b>> \in Dom(c, g) \X Dom(c, g) : ~SameValue(a, b) /\ "d" \in {a, b}}
+      ELSE {<<a, b>> \in Dom(c, g) \X Dom(c, g) : ~SameValue(a, b) /\ b # "d"}   \* a setter cannot "omit"
+SetName(c, g, a, b) == IF <<c, g>> \in Content \/ c = "PlanningProblemSet"
+                       THEN (IF b = "d" THEN "remove:" ELSE "add:") \o g
+                       ELSE "set:" \o g
+
+(* translate_rotate: the groups the library documents to move.  (What translate_rotate must do to them is C05; *)
+(* here they only say from which raw values the reference object is built.)                                    *)
+StatePos == {"position", "orientation"}
+Moved == [
+  Rectangle |-> {"center", "orientation"}, Circle |-> {"center"}, Polygon |-> {"vertices"}, ShapeGroup |-> {"shapes"},
+  InitialState |-> StatePos, PMState |-> {"position"}, ExtendedPMState |-> StatePos, KSState |-> StatePos,
+  KSTState |-> StatePos, STState |-> StatePos, STDState |-> StatePos, MBState |-> StatePos,
+  LateralState |-> {"orientation"}, CustomState |-> {"position"},
+  Trajectory |-> {"state_list"}, Occupancy |-> {"shape"}, TrajectoryPrediction |-> {"trajectory"},
+  SetBasedPrediction |-> {"occupancy_set"},
+  StaticObstacle |-> {"initial_state"}, DynamicObstacle |-> {"initial_state", "prediction"},
+  PhantomObstacle |-> {"prediction"}, EnvironmentObstacle |-> {"obstacle_shape"},
+  StopLine |-> {"start", "end"},
+  Lanelet |-> {"left_vertices", "center_vertices", "right_vertices", "stop_line"},
+  TrafficSign |-> {"position"}, TrafficLight |-> {"position"},
+  LaneletNetwork |-> {"lanelets", "traffic_signs", "traffic_lights"},
+  GoalRegion |-> {"state_list"}, PlanningProblem |-> {"initial_state", "goal_region"},
+  PlanningProblemSet |-> {"planning_problem_list"}, Scenario |-> {"lanelet_network", "obstacles"} ]
+(* convert_to_2d *)
+Flat == [
+  StopLine |-> {"start", "end"}, Lanelet |-> {"left_vertices", "center_vertices", "right_vertices", "stop_line"},
+  TrafficSign |-> {"position"}, TrafficLight |-> {"position"},
+  LaneletNetwork |-> {"lanelets", "traffic_signs", "traffic_lights"} ]
+(* the default of a spatial group is "nothing there" (None, empty) and is not displaced - except these *)
+SpatialDefault == {<<"Rectangle", "center">>, <<"Rectangle", "orientation">>, <<"Circle", "center">>}
+
+MotGroups(c, mk) == IF mk = "move" THEN (IF c \in DOMAIN Moved THEN Moved[c] ELSE {})
+                    ELSE IF mk = "flat" THEN (IF c \in DOMAIN Flat THEN Flat[c] ELSE {}) ELSE {}
+Displaced(c, mk, v) == \E g \in MotGroups(c, mk) : v[g] # "d" \/ <<c, g>> \in SpatialDefault
+MotBefore(mk) == IF mk = "flat" THEN "z3" ELSE "id"
+MotAfter(mk)  == IF mk = "move" THEN "m1" ELSE "id"
+MutKinds == {"set", "move", "flat"}
+
+Desc(v, m) == [val |-> v, mot |-> m]
+DescKey(d) == [val |-> HashKey(d.val), mot |-> d.mot]
+(* descriptors of one class: equal iff same values modulo insertion order and same displacement *)
+ExpectedEqD(c, p, q) == /\ ExpectedEq(p.val, q.val)
+                        /\ \/ p.mot = q.mot
+                           \/ /\ "z3" \notin {p.mot, q.mot} /\ ~Displaced(c, "move", p.val)
+                           \/ /\ "m1" \notin {p.mot, q.mot} /\ ~Displaced(c, "flat", p.val)
+
+(* is  A --mutator--> B  an edge of the mutation relation? *)
+IsMutation(c, mk, a, b) ==
+  CASE mk = "set"  -> /\ Cardinality(Differing(a, b)) = 1
+                      /\ LET g == CHOOSE h \in Differing(a, b) : TRUE IN <<a[g], b[g]>> \in SetPairs(c, g)
+                      /\ \A h \in DOMAIN a : h \in Differing(a, b) \/ a[h] = b[h]
+    [] mk \in {"move", "flat"} -> a = b /\ Displaced(c, mk, a)
+    [] OTHER -> FALSE
+
 (* ---- well-formedness of the table ---- *)
 TableOK ==
   /\ \A i, j \in DOMAIN ClassTable : ClassTable[i].cls = ClassTable[j].cls => i = j
@@ -189,5 +285,10 @@ TableOK ==
             /\ Cardinality({Canon[t] : t \in Dom(c, g)}) >= 2          \* something to perturb to
             /\ \A t \in Dom(c, g) : Canon[t] \in Dom(c, g)            \* "v1r" only next to "v1"
   /\ \A e \in Either : e[1] \in Classes /\ e[2] \in GroupsOf(e[1]) /\ e[3] \subseteq Dom(e[1], e[2])
+  /\ \A e \in NoSetter \cup Content \cup SpatialDefault : e[1] \in Classes /\ e[2] \in GroupsOf(e[1])
+  /\ \A c \in DOMAIN Moved : c \in Classes /\ Moved[c] \subseteq GroupsOf(c)
+  /\ \A c \in DOMAIN Flat : c \in DOMAIN Moved /\ Flat[c] \subseteq Moved[c]
+  /\ \A c \in Classes : \A g \in GroupsOf(c) : \A pr \in SetPairs(c, g) :
+        pr[1] \in Dom(c, g) /\ pr[2] \in Dom(c, g) /\ ~SameValue(pr[1], pr[2])
 ASSUME TableOK
 =================================================================================
